@@ -132,6 +132,51 @@ func r14_1(c *Ctx) {
 						c.unres(key, x.Pos(), "unrecognised use of %s", gname)
 					}
 				case *ssa.DebugRef:
+				case *ssa.IndexAddr:
+					// element of a package-level array: the element address must only be loaded from
+					if isInitFn(f) {
+						c.ok(key, in.Pos(), "initialiser")
+						break
+					}
+					verdict, unr := "", ""
+					for _, ref := range *x.Referrers() {
+						switch r := ref.(type) {
+						case *ssa.DebugRef:
+						case *ssa.UnOp:
+							if r.Op != token.MUL {
+								unr = "element address used by " + r.String()
+								break
+							}
+							if !hasReference(r.Type()) {
+								break
+							}
+							b2, u2 := roUses(c, r, 0, map[ssa.Value]bool{})
+							if b2 != "" {
+								verdict = b2
+							}
+							if u2 != "" {
+								unr = u2
+							}
+						case *ssa.Store:
+							if r.Addr == ssa.Value(x) {
+								verdict = "an element is stored to"
+							} else {
+								unr = "element address stored elsewhere"
+							}
+						default:
+							unr = fmt.Sprintf("element address used by %T", ref)
+						}
+					}
+					switch {
+					case x.X != ssa.Value(g):
+						c.unres(key, in.Pos(), "the address of %s is an index operand", gname)
+					case verdict != "":
+						c.bad(key, in.Pos(), "package-level array %s: %s outside its initialiser: every instance and goroutine shares it", gname, verdict)
+					case unr != "":
+						c.unres(key, in.Pos(), "element of %s: %s", gname, unr)
+					default:
+						c.ok(key, in.Pos(), "array element is only loaded")
+					}
 				default:
 					if isInitFn(f) {
 						c.ok(key, in.Pos(), "initialiser")
@@ -985,6 +1030,8 @@ func r14_6(c *Ctx) {
 			sort.Strings(offending)
 			if len(offending) == 0 {
 				c.ok(key, iff.Pos(), "controls only source-map bookkeeping")
+			} else if why := mirroredBranches(c, f, b); why != "" {
+				c.ok(key, iff.Pos(), "%s", why)
 			} else {
 				c.bad(key, iff.Pos(), "code other than source-map bookkeeping is conditional on the source-map switch: %s", strings.Join(offending, "; "))
 			}
@@ -1051,11 +1098,8 @@ func notSourcemapOnly(in ssa.Instruction, mapperFld *types.Var) string {
 		}
 		for _, r := range x.Results {
 			if !isSourcemapType(r.Type()) {
-				// a result computed before the guard is fine only if it does not differ between the edges; be strict
-				if _, isConst := r.(*ssa.Const); !isConst {
-					continue
-				}
-				return "returns a constant under the switch"
+				// fine only if the other edge returns the same (mirroredBranches)
+				return "returns " + r.Name() + " under the switch"
 			}
 		}
 		return ""
@@ -1515,4 +1559,115 @@ func orderSensitive(info *types.Info, rs *ast.RangeStmt) string {
 		return "assigned value is neither constant nor a range variable"
 	}
 	return ""
+}
+
+// hasReference: values of type t can alias shared storage (pointer, slice, map, chan, func, interface, or an
+// aggregate containing one).
+func hasReference(t types.Type) bool {
+	switch u := t.Underlying().(type) {
+	case *types.Basic:
+		return u.Kind() == types.UnsafePointer
+	case *types.Array:
+		return hasReference(u.Elem())
+	case *types.Struct:
+		for i := 0; i < u.NumFields(); i++ {
+			if hasReference(u.Field(i).Type()) {
+				return true
+			}
+		}
+		return false
+	}
+	return true
+}
+
+// mirroredBranches: both edges of the guard at block b lead to straight-line regions that end in a return and perform
+// the same effects on everything that is not a source-map location: the same values (computed before the guard, or
+// constants) stored into the same fields of a fresh result, and the same results returned. The switch then decides
+// only what the source-map fields hold.
+func mirroredBranches(c *Ctx, f *ssa.Function, b *ssa.BasicBlock) string {
+	r0, r1 := edgeRegion(f, b, 0), edgeRegion(f, b, 1)
+	if len(r0) == 0 || len(r1) == 0 {
+		return ""
+	}
+	inEither := func(blk *ssa.BasicBlock) bool { return r0[blk] || r1[blk] }
+	summ := func(region map[*ssa.BasicBlock]bool) ([]string, bool) {
+		var blocks []*ssa.BasicBlock
+		for blk := range region {
+			blocks = append(blocks, blk)
+		}
+		sort.Slice(blocks, func(i, j int) bool { return blocks[i].Index < blocks[j].Index })
+		allocs := map[ssa.Value]bool{}
+		var out []string
+		returns := false
+		valkey := func(v ssa.Value) string {
+			switch x := v.(type) {
+			case *ssa.Const:
+				return "const " + x.String()
+			case *ssa.Parameter, *ssa.Global, *ssa.Function:
+				return fmt.Sprintf("outer %p", v)
+			case *ssa.UnOp:
+				if x.Op == token.MUL && allocs[x.X] {
+					return "the fresh " + deref(x.X.Type()).String()
+				}
+			}
+			if isSourcemapType(v.Type()) {
+				return "sourcemap value"
+			}
+			if in, ok := v.(ssa.Instruction); ok && in.Block() != nil && !inEither(in.Block()) {
+				return fmt.Sprintf("outer %p", v)
+			}
+			return fmt.Sprintf("local %p", v)
+		}
+		for _, blk := range blocks {
+			if blockIf(blk) != nil {
+				return nil, false
+			}
+			for _, in := range blk.Instrs {
+				switch x := in.(type) {
+				case *ssa.Return:
+					returns = true
+					for _, r := range x.Results {
+						out = append(out, "return "+valkey(r))
+					}
+					continue
+				case *ssa.Alloc:
+					if !x.Heap || true {
+						allocs[x] = true
+					}
+					continue
+				case *ssa.Store:
+					if fa, ok := x.Addr.(*ssa.FieldAddr); ok && allocs[fa.X] {
+						if isSourcemapType(deref(fa.Type())) {
+							continue
+						}
+						out = append(out, "store "+deref(fa.X.Type()).String()+"."+fieldOfAddr(fa).Name()+" = "+valkey(x.Val))
+						continue
+					}
+					if allocs[x.Addr] {
+						if isSourcemapType(deref(x.Addr.Type())) {
+							continue
+						}
+						out = append(out, "store "+deref(x.Addr.Type()).String()+" = "+valkey(x.Val))
+						continue
+					}
+				}
+				if notSourcemapOnly(in, nil) != "" {
+					out = append(out, fmt.Sprintf("other %p", in))
+				}
+			}
+		}
+		sort.Strings(out)
+		return out, returns
+	}
+	s0, ok0 := summ(r0)
+	s1, ok1 := summ(r1)
+	if !ok0 || !ok1 || len(s0) != len(s1) {
+		return ""
+	}
+	for i := range s0 {
+		if s0[i] != s1[i] || strings.HasPrefix(s0[i], "other ") || strings.Contains(s0[i], "local ") {
+			return ""
+		}
+	}
+	return fmt.Sprintf("both edges return after the same %d effect(s) on non-source-map state; only source-map fields differ", len(s0))
 }
